@@ -15,14 +15,17 @@ def lifecycle(draw):
   n = draw(st.integers(1, 12))
   ops = []
   for _ in range(n):
-    k = draw(st.sampled_from(["start", "start", "stop", "subscribe", "publish", "publish", "settle",
-                              "start_object", "post", "clear"]))
+    k = draw(st.sampled_from(["start", "start", "stop", "stop_quietly", "subscribe", "publish", "publish",
+                              "settle", "start_object", "post", "clear", "object_publish"]))
     if k in ("subscribe", "publish"):
       ops.append([k, draw(st.sampled_from(SIGS))])
     else:
       ops.append([k])
   # end in a known state: restart, subscribe, publish, settle
-  ops += [["stop"], ["start"], ["settle"]]
+  # a fixed tail every history goes through: an object that outlives a quiet stop publishes,
+  # the fabric must stay stopped; then restart
+  ops += [["start"], ["start_object"], ["settle"], ["stop_quietly"], ["object_publish"], ["settle"],
+          ["stop"], ["start"], ["settle"]]
   return {"ops": ops, "schedule": [list(x) for x in draw(schedule_st)]}
 
 
@@ -68,6 +71,7 @@ class C13(Prop):
       epoch = [0]                  # bumped by clear(): expectations across a clear are dropped
       pending = []                 # (id, sig, running_at_publish, epoch, subscribed)
       objects = []
+      stale = []                   # objects started under a fabric run that has since been stopped
       nid = [0]
       A = aocheck.make_ao_class(rec)
 
@@ -117,9 +121,25 @@ class C13(Prop):
           if len(alive_fabric()) > 2:
             raise PropertyViolation("%s: start() left %d delivery threads alive" % (
               where, len(alive_fabric())), "C13:too-many-threads")
+        elif k == "object_publish":
+          # an active object publishes (its thread may be alive although the fabric is stopped)
+          for c in objects + stale:
+            nid[0] += 1
+            pending.append((nid[0], "VA", running, epoch[0], "VA" in recorders))
+            c.publish(Event(signal=signals["VA"], payload=nid[0]))
+        elif k == "stop_quietly":
+          # stop without waking the active objects: their threads stay alive until their next event
+          af.stop()
+          running = False
+          if alive_fabric() or af.is_alive():
+            raise PropertyViolation("%s: stop() returned but delivery threads are alive" % where, "C13:stop")
+          stale.extend(objects)
+          del objects[:]
         elif k == "stop":
           af.stop()
           running = False
+          objects.extend(stale)
+          del stale[:]
           if alive_fabric():
             raise PropertyViolation("%s: stop() returned but %s still alive" % (
               where, [t.name for t in alive_fabric()]), "C13:stop")
@@ -176,7 +196,7 @@ class C13(Prop):
     s = detsched.Scheduler(schedule=case["schedule"], step_limit=600000,
                            trace_files=[files["activeobject"]])
     try:
-      s.run(body)
+      detsched.guarded_run(s, body)
     except (detsched.Deadlock, detsched.StepLimit) as e:
       raise PropertyViolation("no quiescence: %s" % e, "C13:liveness")
     if s.thread_errors:
